@@ -1,11 +1,22 @@
 """Bounded stand-in (B3) for C12: all acquire/release sequences (non-blocking acquires) up to length K
 over T tags and capacities 1..C on the REAL SlidingWindowSemaphore against a reference model.
 usage: b3_semaphore.py <repo_root> <K> [--replay '<json [cap, ops]>']"""
-import itertools, json, sys
+import itertools, json, signal, sys
 root, K = sys.argv[1], int(sys.argv[2])
 sys.path.insert(0, root)
 from s3transfer.utils import NoResourcesAvailable, SlidingWindowSemaphore
 TAGS, CAPS, TOKS = ['a', 'b'], [1, 2, 3], [0, 1, 2, 3]
+
+
+class _Blocked(Exception):
+    pass
+
+
+def _alarm(*a):
+    raise _Blocked()
+
+
+signal.signal(signal.SIGALRM, _alarm)
 
 
 def run(cap, ops):
@@ -17,12 +28,18 @@ def run(cap, ops):
             t = op[1]
             free = cap - sum(issued[x] - low[x] for x in issued)
             try:
-                tok = sem.acquire(t, blocking=False)
+                signal.alarm(2)
+                try:
+                    tok = sem.acquire(t, blocking=False)
+                finally:
+                    signal.alarm(0)
                 if free <= 0:
                     return f'acquire succeeded at zero capacity'
                 if tok != issued.get(t, 0):
                     return f'token {tok} != next sequence number {issued.get(t, 0)}'
                 issued[t] = issued.get(t, 0) + 1; low.setdefault(t, 0); released.setdefault(t, set())
+            except _Blocked:
+                return 'non-blocking acquire blocked instead of raising'
             except NoResourcesAvailable:
                 if free > 0:
                     return 'acquire refused although capacity is free'
